@@ -320,7 +320,10 @@ fn main() {
 	}
 	let mut r = 0u64;
 	let mt_props = ["C04", "C07", "C10"].contains(&prop.as_str());
-	while !budget.exhausted() && (budget.fraction() < 0.9) {
+	// the quick tier explores a fixed number of random scenarios per shard (the time budget is only the upper limit), so
+	// that the work done, and the evidence describing it, do not depend on how fast or loaded the machine is
+	let quota: u64 = args.extra.get("quota").and_then(|q| q.parse().ok()).unwrap_or(u64::MAX);
+	while r < quota && !budget.exhausted() && (budget.fraction() < 0.9) {
 		if mt_props && r % 80 == 79 {
 			// concurrent senders on a multi-thread runtime, real clock (invariant oracles only)
 			mt::run_one(&prop, &mut rng, &mut rep, r == 79);
@@ -331,6 +334,9 @@ fn main() {
 		r += 1;
 	}
 	rep.count("random_scenarios", r);
+	if r < quota && quota != u64::MAX {
+		rep.note("random part cut short by the time budget before the scenario quota was reached");
+	}
 	rep.count("exhaustive_scenarios_run", n as u64);
 	rep.write(&args);
 }
